@@ -267,6 +267,90 @@ Section Binding.
     is_ok_true (bg_km_has_bpm_hash buf) && is_ok_true (bg_key_match alg buf keyalg keydata).
   Definition cbnt_binding_ok (hs : list kmhash) (keyalg : Z) (keydata : bytes) : bool :=
     is_ok_true (cbnt_km_has_bpm_hash hs) && is_ok_true (cbnt_key_match hs keyalg keydata).
+
+  (** ** GetBPMPubHash and the life of a key manifest OBJECT
+
+      What a KM object holds about the BPM key: BG 1.0 one HashStructure
+      (BGkm.BPKey), CBnT the list CBNTkm.Hash. *)
+  Inductive kmstate :=
+  | KmBG (alg : Z) (buf : bytes)
+  | KmCBNT (hs : list kmhash).
+
+  (** The digest GetBPMPubHash computes: [hashAlg.Hash()] must exist for the parsed
+      algorithm ([req = None]: GetAlgFromString did not know the name), the message
+      is [kAs.Data[4:]] (the modulus; the slice panics on fewer than 4 bytes). *)
+  Definition place_digest (size : Z -> option nat) (req : option Z) (kd : bytes) : outcome (Z * bytes) :=
+    match req with
+    | None => Err 2
+    | Some alg =>
+        match size alg with
+        | None => Err 3
+        | Some _ => if (length kd <? 4)%nat then Panic else Ok (alg, H alg (skipn 4 kd))
+        end
+    end.
+
+  (** GetBPMPubHash on a KM object in state [st].  [keyok]: cbnt.Key.SetPubKey
+      accepted the public key.  On success the state is REPLACED: BG 1.0
+      [BPKey = {alg, digest}]; CBnT [Hash = append(nil, {UsageBPMSigningPKD, alg,
+      digest})] -- the whole list, whatever it held before (stale BPM digests of
+      an earlier call AND entries of other usages are dropped).  On an error the
+      object is untouched. *)
+  Definition km_place (st : kmstate) (keyok : bool) (req : option Z) (kd : bytes) : outcome unit * kmstate :=
+    if negb keyok then (Err 1, st)
+    else
+      let size := match st with KmBG _ _ => bg_hash_size | KmCBNT _ => cbnt_hash_size end in
+      match place_digest size req kd with
+      | Ok (alg, d) =>
+          (Ok tt, match st with
+                  | KmBG _ _ => KmBG alg d
+                  | KmCBNT _ => KmCBNT [mk_kmhash UsageBPMSigningPKD alg d]
+                  end)
+      | Err c => (Err c, st)
+      | Panic => (Panic, st)
+      | OutOfFuel => (OutOfFuel, st)
+      end.
+
+  (** One step in the life of a KM object: a GetBPMPubHash call, or any of the
+      operations that do not concern the BPM-key hash (SignKM, WriteKM followed
+      by NewKM on the written file, VerifyKM, a change of SVN/ID): those leave
+      BPKey / Hash as they are.  (For SignKM and the file round trip that is a
+      fact about fiano's store/codec, checked by the correspondence run.) *)
+  Inductive kmstep :=
+  | SPlace (keyok : bool) (req : option Z) (kd : bytes)
+  | SKeep.
+
+  Definition km_step (st : kmstate) (s : kmstep) : kmstate :=
+    match s with
+    | SPlace keyok req kd => snd (km_place st keyok req kd)
+    | SKeep => st
+    end.
+  Definition km_step_outcome (st : kmstate) (s : kmstep) : outcome unit :=
+    match s with
+    | SPlace keyok req kd => fst (km_place st keyok req kd)
+    | SKeep => Ok tt
+    end.
+  Definition km_run (st : kmstate) (steps : list kmstep) : kmstate := fold_left km_step steps st.
+
+  (** The binding check on a KM state. *)
+  Definition km_binding_ok (st : kmstate) (keyalg : Z) (keydata : bytes) : bool :=
+    match st with
+    | KmBG alg buf => bg_binding_ok alg buf keyalg keydata
+    | KmCBNT hs => cbnt_binding_ok hs keyalg keydata
+    end.
+
+  (** The last GetBPMPubHash call of a history that succeeded: (algorithm, key data). *)
+  Definition step_places (st : kmstate) (s : kmstep) : option (Z * bytes) :=
+    match s with
+    | SPlace keyok (Some alg) kd =>
+        match fst (km_place st keyok (Some alg) kd) with Ok _ => Some (alg, kd) | _ => None end
+    | _ => None
+    end.
+  Fixpoint last_placed (st : kmstate) (steps : list kmstep) (acc : option (Z * bytes)) : option (Z * bytes) :=
+    match steps with
+    | [] => acc
+    | s :: t =>
+        last_placed (km_step st s) t (match step_places st s with Some p => Some p | None => acc end)
+    end.
 End Binding.
 
 (** * Private key wrapping (keygen.go) *)
